@@ -40,6 +40,7 @@ ALIASES = [
     ("C08.R6", c04.r4, "every database entry is analysed on one fresh Platform of its own, named after its platform (= C04.R4)"),
     ("C18.R8", c04.r4, "a forced include that cannot be found is reported once, naming the requested and the compiled file (= C04.R4)"),
     ("C11.R9", c04.r4, "the extracted -I / -D / -include lists reach the platform complete and in order (= C04.R4)"),
+    ("C08.R7", c13.r7, "every compile command listed in the database reaches the analysis: entries are neither merged nor de-duplicated (= C13.R7)"),
     ("C05.R5", c17.r3, "a file is scanned with the line source of its (inherited) language (= C17.R3)"),
 ]
 
